@@ -30,8 +30,8 @@ def main():
     ran = []
     try:
         shutil.copyfile(os.path.join(dst, "demo.rs"), os.path.join(wt, "tests", "seed_demo.rs"))
-        rc, out = sh("%s cargo test --offline --test seed_demo 2>&1 | tail -5" % env, cwd=wt)
-        demo_clean = "test result: ok" in out
+        rc, out = sh("%s cargo test --offline --features verif-hooks --test seed_demo 2>&1 | tail -5" % env, cwd=wt)
+        demo_clean = "test result: ok" in out and "0 passed" not in out.split("test result: ok")[-1][:20]
         ran.append("pristine HEAD: demo %s" % ("passes" if demo_clean else "FAILS: " + out[-300:]))
         rc, out = sh("git apply %s" % os.path.join(dst, "patch.diff"), cwd=wt)
         applies = rc == 0
@@ -46,7 +46,7 @@ def main():
             res = re.findall(r"test result: (\w+)\. (\d+) passed; (\d+) failed", out)
             total_pass = sum(int(x[1]) for x in res)
             total_fail = sum(int(x[2]) for x in res)
-            rc2, out2 = sh("%s cargo test --offline --test seed_demo 2>&1 | tail -8" % env, cwd=wt)
+            rc2, out2 = sh("%s cargo test --offline --features verif-hooks --test seed_demo 2>&1 | tail -8" % env, cwd=wt)
             demo_fails = "test result: FAILED" in out2 or "panicked" in out2
             rc3, out3 = sh("%s cargo test --offline --no-fail-fast -- --skip zzzz 2>&1 | grep -E '^test result' " % env, cwd=wt)
             # suite without the demo
